@@ -1057,6 +1057,30 @@ Section WeakList.
     symmetry. apply evaluate_same_weak; auto.
     apply (deps_ltN W WF r2). auto. apply nth_In. auto.
   Qed.
+  (* C05_unbounded_any_range: a cell through the reference node of an unbounded
+     range and through any range node that contains it *)
+  Theorem unbounded_any_range_weak s h r p cols1 i1 j1 r2 cols2 i2 j2 :
+    Inv W sem s -> Forall (be_op W) h -> alias_node W sem r p -> p < N ->
+    (forall vals, sem p vals = sem_formula (FRange cols1) vals) ->
+    0 < cols1 -> j1 < cols1 -> i1 * cols1 + j1 < length (wb_deps W p) ->
+    r2 < N -> wb_input W r2 = false ->
+    (forall vals, sem r2 vals = sem_formula (FRange cols2) vals) ->
+    0 < cols2 -> j2 < cols2 -> i2 * cols2 + j2 < length (wb_deps W r2) ->
+    nth (i1 * cols1 + j1) (wb_deps W p) 0 = nth (i2 * cols2 + j2) (wb_deps W r2) 0 ->
+    tuple_at (snd (evaluate W sem s r)) i1 j1
+    = tuple_at (snd (evaluate W sem (fst (run W sem s h)) r2)) i2 j2
+    /\ tuple_at (snd (evaluate W sem (fst (run W sem s h)) r)) i1 j1
+       = tuple_at (snd (evaluate W sem s r2)) i2 j2.
+  Proof.
+    intros I F AL Lp Sp C1 J1 H1 L2 I2 S2 C2 J2 H2 E.
+    pose proof AL as (_ & _ & _ & Ip & _).
+    destruct (be_run_weak h s I F) as [I' K].
+    destruct (unbounded_path_weak s r p cols1 i1 j1 I AL Lp Sp C1 J1 H1) as (E1 & _ & _).
+    destruct (unbounded_path_weak _ r p cols1 i1 j1 I' AL Lp Sp C1 J1 H1) as (E2 & _ & _).
+    rewrite E1, E2. split.
+    - apply (path_any_range_weak s h p cols1 i1 j1 r2 cols2 i2 j2); auto.
+    - symmetry. apply (path_any_range_weak s h r2 cols2 i2 j2 p cols1 i1 j1); auto.
+  Qed.
 End WeakList.
 
 (* ---- the hypotheses are satisfiable (tests, not theorems): the two-column
@@ -1184,4 +1208,15 @@ Proof.
   apply (path_any_range_weak exaW xp_sem (exa_wf _) xp_weak xp_stored (init exaW) [Evaluate 5; Build 3]
            2 1 1 0 2 1 1 0 xp_inv); try (cbn; lia); try reflexivity.
   repeat constructor; cbn; lia.
+Qed.
+
+(* B2 through B:B (node 3, alias of node 2) and through B1:B2 (node 2) *)
+Example xl_unbounded_any_range :
+  tuple_at (snd (evaluate exaW xp_sem (init exaW) 3)) 1 0
+  = tuple_at (snd (evaluate exaW xp_sem (fst (run exaW xp_sem (init exaW) [Evaluate 5; Build 3])) 2)) 1 0.
+Proof.
+  apply (unbounded_any_range_weak exaW xp_sem (exa_wf _) xp_weak xp_stored (init exaW) [Evaluate 5; Build 3]
+           3 2 1 1 0 2 1 1 0 xp_inv); try (cbn; lia); try reflexivity.
+  - repeat constructor; cbn; lia.
+  - apply xl_alias.
 Qed.
